@@ -29,9 +29,11 @@ def catalogue(rng, defn, vname):
         return out
     good = drvgen.new_message(rng, defn, vname)
     idx_of = {e["name"]: i for i, e in enumerate(v["elements"])}
-    m = drvgen.msggen.clone(good)
-    m["attrs"]["device"] = "NOPE"
-    out.append(("unknown-device", xml_of(m), []))
+    for label, other in (("unknown-device", "NOPE"), ("empty-device-name", ""), ("device-name-with-blank", dev + " "),
+                         ("device-name-other-case", dev.lower() if dev.lower() != dev else dev.upper()), ("device-name-prefix", dev[:-1])):
+        m = drvgen.msggen.clone(good)
+        m["attrs"]["device"] = other
+        out.append((label, xml_of(m), []))
     m = drvgen.msggen.clone(good)
     m["attrs"]["name"] = "NOPE"
     out.append(("unknown-property", xml_of(m), []))
@@ -84,6 +86,10 @@ def catalogue(rng, defn, vname):
     out.append(("client-sends-message", '<message device="%s" message="hi"/>' % dev, []))
     out.append(("getprops-unknown-property", '<getProperties version="1.7" device="%s" name="NOPE"/>' % dev, []))
     out.append(("getprops-unknown-device", '<getProperties version="1.7" device="NOPE"/>', []))
+    out.append(("getprops-empty-device", '<getProperties version="1.7" device=""/>', []))
+    out.append(("getprops-empty-device-named", '<getProperties version="1.7" device="" name="%s"/>' % vname, []))
+    out.append(("known-root-unknown-child", head + '<bogus name="%s">1</bogus>' % e0 + tail, []))
+    out.append(("known-root-message-as-child", head + '<getProperties version="1.7"/>' + tail, []))
     out.append(("enableblob-unknown-device", '<enableBLOB device="NOPE">Also</enableBLOB>', []))
     out.append(("enableblob-bad-value", '<enableBLOB device="%s">Sometimes</enableBLOB>' % dev, []))
     out.append(("not-a-message", '<foo bar="1"><baz/></foo>', []))
